@@ -2,7 +2,7 @@
    from the control events of the scenario alone and judges the listener views recorded in the two traces after
    the settle bound: last disturbance + one TTL + one period (+ the start-up phases and network latency). *)
 From PS Require Import Lib.Base Generated.Consts Model.SdTypes Model.Config Model.Session Model.StackTypes Model.Stack
-  Model.StackIO Model.System.
+  Model.StackIO Model.System Spec.TraceSpec.
 
 Record nstate := mkNs { ns_alive : bool; ns_started : bool; ns_since : N }.
 
@@ -92,8 +92,30 @@ Definition f16_pattern (sc : sys_scenario) (tra : trace) : bool :=
                              | _ => false
                              end) tra).
 
+(* F20 (open finding, a consequence of F15): with an infinite subscription TTL and no refresh, an answer to the watcher's
+   FindService that leaves the offerer AFTER its StopOffer (F15: queued before the stop, its collection window closes
+   later) makes the watcher store an offer of a stopped service; when the offerer is started again its offers only
+   refresh that entry, nobody is notified and the watcher never subscribes again.  Recognised on the offerer's trace: a
+   unicast Offer (TTL > 0) transmitted after a multicast StopOffer and before the next multicast Offer. *)
+Definition f20_pattern (sc : sys_scenario) (tra : trace) : bool :=
+  let cb := nd_cfg (ss_b sc) in
+  (t_subscribe_ttl cb =? TTL_FOREVER) && match t_refresh cb with None => true | Some _ => false end
+  && match sent_entries tra with
+     | None => false
+     | Some l =>
+         snd (fold_left (fun st x =>
+                let '(after, found) := st in
+                let '(_, d, e) := x in
+                if e_type e =? ET_OfferService then
+                  match d with
+                  | None => (e_ttl e =? 0, found)
+                  | Some _ => (after, found || (after && negb (e_ttl e =? 0)))
+                  end
+                else st) l (false, false))
+     end.
+
 (* codes: 1 watcher view wrong after the bound, 2 watcher view still changing after the bound, 3 server view wrong,
-   4 server view still changing, 16 = code 3 under the F16 pattern, 90 not judged (outside the domain or the run ends before the bound) *)
+   4 server view still changing, 16 = code 3 under the F16 pattern, 20 = code 3 under the F20 pattern, 90 not judged (outside the domain or the run ends before the bound) *)
 Definition check_C04 (sc : sys_scenario) (tra trb : trace) : list N :=
   let sa := node_state sc false in
   let sb := node_state sc true in
@@ -107,5 +129,5 @@ Definition check_C04 (sc : sys_scenario) (tra trb : trace) : list N :=
      (if Bool.eqb (view_now wv) offering then [] else [1]) ++ (if changes_after d wv then [2] else [])
    else [])
   ++ (if ns_alive sa then
-        (if Bool.eqb (view_now sv) (offering && watching) then [] else [if f16_pattern sc tra then 16 else 3]) ++ (if changes_after d sv then [4] else [])
+        (if Bool.eqb (view_now sv) (offering && watching) then [] else [if f16_pattern sc tra then 16 else if f20_pattern sc tra then 20 else 3]) ++ (if changes_after d sv then [4] else [])
       else []).
